@@ -1,9 +1,150 @@
 import NibabelModel.Model.C14
 import Driver.Util
-/-! Line-protocol driver for C14: `C14 <op> <args...>` -> one observable line. -/
+/-! Line-protocol driver for C14: `C14 <op> <args...>` -> one observable line.
+
+  `run <scn> <mmap> <order> <isz> <off> <flen> <shape> <progs> <sched>`
+      scn   = fh (proxy over an open handle, `c` reads go through its copy()) | keep (path, keep_file_open=True)
+      progs = threads separated by `|`; reads of a thread separated by `/`; a read is `<p|c>[L]=<W|idx>`
+              (`W` = np.asarray(proxy), idx in the C06 syntax, `L` = caller holds `proxy._lock` around the read)
+      sched = comma separated thread ids (`-` = empty)
+      output: `<event trace> | <per-thread results>`
+  `raw <flen> <nh> <progs> <sched>`: explicit action programs (threads `|`, actions `,`):
+      a<l> r<l> s<o> e t R<n> p<k> o S g ; file byte i = (7*i+3) % 251 ; output: event trace
+-/
 namespace Nb.Drv.C14
+open Nb Nb.C14
+
+def hashBytes (l : List Nat) : Nat := l.foldl (fun h b => (h * 257 + b + 1) % 1000000007) 7
+
+def showOpt : Option Nat → String
+  | none => "-"
+  | some h => toString h
+
+def showEv : Ev → String
+  | .acq l => "a" ++ toString l
+  | .rel l => "r" ++ toString l
+  | .blocked l => "b" ++ toString l
+  | .relErr l => "x" ++ toString l
+  | .seek h o => "s" ++ toString h ++ "@" ++ toString o
+  | .seekEnd h => "e" ++ toString h
+  | .tell h p => "t" ++ toString h ++ "=" ++ toString p
+  | .read h n d => "R" ++ toString h ++ ":" ++ toString n ++ ":" ++ toString d.length ++ ":" ++ toString (hashBytes d)
+  | .get v => "g" ++ showOpt v
+  | .opn h => "o" ++ toString h
+  | .setSlot h => "S" ++ toString h
+  | .idle => "i"
+
+def showTrace (tr : List (Tid × Ev)) : String :=
+  " ".intercalate (tr.map (fun x => toString x.1 ++ "." ++ showEv x.2))
+
+def showRes : Res → String
+  | .ok sh el => "ok" ++ showList sh ++ "#" ++ toString el.length ++ ":" ++ toString (hashBytes el)
+  | .err => "ERR"
+
+def parseItem? (s : String) : Option C06.IdxItem :=
+  if s = "n" then some .newaxis
+  else if s = "e" then some .ellipsis
+  else if s.startsWith "i" then (s.drop 1).toString.toInt?.map C06.IdxItem.int
+  else if s.startsWith "s" then
+    match ((s.drop 1).toString.splitOn ",").mapM parseOptInt? with
+    | some [a, b, c] => some (.slice ⟨a, b, c⟩)
+    | _ => none
+  else none
+
+/-- index tuple in the C06 syntax: items separated by `;`, `-` = the empty tuple -/
+def parseIdx? (s : String) : Option (List C06.IdxItem) :=
+  if s = "-" then some [] else (s.splitOn ";").mapM parseItem?
+
+def parseSched? (s : String) : Option (List Nat) := parseNatList? s
+
+def parseReq? (hasFh : Bool) (s : String) : Option Req :=
+  match s.splitOn "=" with
+  | [who, idx] =>
+      let lockOuter : Option (Nat × Bool) :=
+        if who = "p" then some (0, false) else if who = "pL" then some (0, true)
+        else if who = "c" ∧ hasFh then some (copyLock hasFh 0 1, false)
+        else if who = "cL" ∧ hasFh then some (copyLock hasFh 0 1, true)
+        else none
+      match lockOuter with
+      | none => none
+      | some (l, o) =>
+          if idx = "W" then some ⟨l, o, none⟩
+          else (parseIdx? idx).map (fun i => ⟨l, o, some i⟩)
+  | _ => none
+
+def parseThread? (hasFh : Bool) (s : String) : Option (List Req) :=
+  if s = "-" then some [] else (s.splitOn "/").mapM (parseReq? hasFh)
+
+def parseAction? (s : String) : Option Action :=
+  let arg := (s.drop 1).toString
+  if s = "e" then some .seekEnd else if s = "t" then some .tell
+  else if s = "o" then some .opn else if s = "S" then some .setSlot else if s = "g" then some .getSlot
+  else if s.startsWith "a" then arg.toNat?.map Action.acquire
+  else if s.startsWith "r" then arg.toNat?.map Action.release
+  else if s.startsWith "s" then arg.toNat?.map Action.seek
+  else if s.startsWith "R" then arg.toNat?.map Action.read
+  else if s.startsWith "p" then arg.toNat?.map Action.probe
+  else none
+
+def parseRawThread? (s : String) : Option (List Action) :=
+  if s = "-" then some [] else (s.splitOn ",").mapM parseAction?
+
+/-- can thread `t` make progress (scheduler's view: alive and not waiting for a lock held by another) -/
+def enabled (s : State) (t : Tid) : Bool :=
+  match (s.threads t).prog with
+  | [] => false
+  | .acquire l :: _ => (match s.owner l with | none => true | some u => u == t)
+  | _ => true
+
+/-- the harness' default policy after the explicit schedule: keep running the last thread while it is
+    enabled, else the lowest enabled thread id; stop when no thread is enabled -/
+def complete (file : List Byte) (n : Nat) : Nat → State → Option Tid → List Tid
+  | 0, _, _ => []
+  | fuel + 1, s, last =>
+      let en := (List.range n).filter (enabled s)
+      let pick : Option Tid := match last with
+        | some l => if en.contains l then some l else en.head?
+        | none => en.head?
+      match pick with
+      | none => []
+      | some t => t :: complete file n fuel (step file s t).1 (some t)
+
+def fullSched (file : List Byte) (n : Nat) (progs : Tid → List Action) (s0 : State) (sched : List Tid) : List Tid :=
+  let fuel := ((List.range n).map (fun t => (progs t).length)).foldl (· + ·) 0 + 1
+  sched ++ complete file n fuel (runS file s0 sched) sched.getLast?
 
 def handle : List String → String
+  | ["run", scn, mm, ord, isz, off, flen, shape, progs, sched] =>
+      match (if scn = "fh" then some false else if scn = "keep" then some true else none),
+            (if mm = "1" then some true else if mm = "0" then some false else none),
+            (if ord = "C" then some C06.Order.C else if ord = "F" then some C06.Order.F else none),
+            isz.toNat?, off.toNat?, flen.toNat?, parseNatList? shape, parseSched? sched with
+      | some persist, some mmap, some o, some isz, some off, some flen, some shape, some sched =>
+          match (progs.splitOn "|").mapM (parseThread? (!persist)) with
+          | none => "bad-op"
+          | some reqs =>
+              let c : Cfg := ⟨persist, mmap, o, isz, off, flen, shape⟩
+              let plans := reqs.map (fun th => th.map (plan c))
+              let prog : Tid → List Action := fun t => ((plans.getD t []).map (·.prog)).flatten
+              let file := mkFile c
+              let s0 := State.init prog (if persist then 0 else 1)
+              let sched := fullSched file plans.length prog s0 sched
+              let tr := trace file s0 sched
+              let sEnd := runS file s0 sched
+              let res := (List.range plans.length).map (fun t =>
+                if (sEnd.threads t).prog.isEmpty then
+                  "/".intercalate ((results (plans.getD t []) (readsOf t tr)).map showRes)
+                else "INCOMPLETE")
+              showTrace tr ++ " | " ++ ";".intercalate res
+      | _, _, _, _, _, _, _, _ => "bad-op"
+  | ["raw", flen, nh, progs, sched] =>
+      match flen.toNat?, nh.toNat?, (progs.splitOn "|").mapM parseRawThread?, parseSched? sched with
+      | some flen, some nh, some ps, some sched =>
+          let file := (List.range flen).map (fun i => (7 * i + 3) % 251)
+          let prog : Tid → List Action := fun t => ps.getD t []
+          let s0 := State.init prog nh
+          showTrace (trace file s0 (fullSched file ps.length prog s0 sched))
+      | _, _, _, _ => "bad-op"
   | _ => "bad-op"
 
 end Nb.Drv.C14
